@@ -73,7 +73,7 @@ def _generate(rng, index, tier, extra):  # pylint: disable=unused-argument
     if roll < 0.55:
         paths = corpus.class_paths()
         path = rng.choice(paths)
-        seeds = corpus.accepted(path)
+        seeds = corpus.accepted_plus(path)
         bad = corpus.rejected(path)
         if bad and (not seeds or rng.random() < 0.2):
             raw = rng.choice(bad)
